@@ -91,25 +91,33 @@ def frameOk (users : List Str) (P Q : DB) (op : Op) (res : Res) : Bool :=
 def isFresh (users : List Str) (P : DB) (t : Str) : Bool :=
   !P.has t && !(heldTexts users P).contains t
 
+/-- the answer is an identifier the store holds for that user — all five fields, empty ≡ absent — and
+    its value maps back to that user -/
+def answered (Q : DB) (u : Option Str) (n : NameId) : Bool :=
+  ownedBy Q n.text u &&
+  (match u with
+   | some u => (held Q u).contains n.norm
+   | none => false)
+
 def fltOk (flt : List (Nat × Option Str)) (n : NameId) : Bool := flt.all (fun kv => getField n kv.1 == kv.2)
 
 /-- (C) what the answer of each operation must be -/
 def resOk (K : Consts) (users : List Str) (P Q : DB) : Op → Res → Bool
   | .persistent u spq nq _, .nid n =>
-    ownedBy Q n.text (some u) && sameQual n spq nq && regText K Q u spq nq == n.text &&
+    answered Q (some u) n && sameQual n spq nq && regText K Q u spq nq == n.text &&
     n.fmt == some K.persistent &&
     (match regText K P u spq nq with
      | some t0 => n.text == some t0                                        -- stable
      | none => match n.text with | some t => isFresh users P t | none => false)
   | .transient u spq nq _, .nid n =>
-    ownedBy Q n.text (some u) && sameQual n spq nq && n.fmt == some K.transient &&
+    answered Q (some u) n && sameQual n spq nq && n.fmt == some K.transient &&
     (match n.text with | some t => isFresh users P t | none => false)
   -- the other issuing calls: an identifier of that user, for the requester (and format) asked for
-  | .getNameid u fmt spq nq _, .nid n => ownedBy Q n.text (some u) && sameQual n spq nq && n.fmt == some fmt
+  | .getNameid u fmt spq nq _, .nid n => answered Q (some u) n && sameQual n spq nq && n.fmt == some fmt
   | .construct u lf spq pol _ _, .nid n =>
-    ownedBy Q n.text (some u) && normF n.spq == normF (constructSpq spq pol) && n.fmt == constructFmt lf pol
+    answered Q (some u) n && normF n.spq == normF (constructSpq spq pol) && n.fmt == constructFmt lf pol
   | .mapping n0 pol _, .nid n =>
-    ownedBy Q n.text (n0.text.bind P.get) && normF n.spq == normF pol.spq && normF n.fmt == normF pol.fmt
+    answered Q (n0.text.bind P.get) n && normF n.spq == normF pol.spq && normF n.fmt == normF pol.fmt
   | .findLocalId n, .user x =>
     (users.all fun u => (held P u).all fun m => m.text != n.text || x == some u) &&
     ((n.text.bind P.get).isSome || x == none)
